@@ -73,8 +73,11 @@ class QGauss(object):
     def setup(self, npts=None):
         if npts is not None:
             if self.npts != npts:
+                # remember npts only once the rule exists: a rejected npts
+                # (say 20.0) must not make a later npts=20 reuse the old rule
+                xxi, wii = gauleg(-1.0, 1.0, npts)
                 self.npts = npts
-                self.xxi, self.wii = gauleg(-1.0, 1.0, self.npts)
+                self.xxi, self.wii = xxi, wii
 
     def integrate(self, xvals, yvals_or_func, npts=None):
         """
